@@ -51,7 +51,10 @@ def cases(tier, seed):
                 for shuffle in ((False, True) if (tier == "thorough" or j == 0)
                                 else ((h + j) % 2 == 0,)):
                     yield {"N": N, "mode": mode, "req": req, "finished": sub,
-                           "shuffle": shuffle, "form": form, "kind": kind}
+                           "shuffle": shuffle, "form": form, "kind": kind,
+                           # the reaping object is the long-lived sower that
+                           # looked at its progress before others grew
+                           "live": (h + j + len(sub)) % 3 == 0}
 
 
 def worker_init():
@@ -82,9 +85,12 @@ def check_case(case):
     crop.sow_combos(combos, shuffle=case["shuffle"], verbosity=0)
     B = crop.num_batches
     have = set()
+    if case.get("live"):
+        crop.num_results, crop.missing_results(), crop.is_ready_to_reap()
     with xfn.CallLog() as log:
         for i in sub:
-            grow(i, crop=crop, verbosity=0)
+            grow(i, crop=(xyz.Crop(name="k", parent_dir=d)
+                          if case.get("live") else crop), verbosity=0)
     have = set(log.encs())
     before = fsseam.tree_hash(d)
 
@@ -98,7 +104,7 @@ def check_case(case):
         dskw = dict(var_names="out")
 
     def reap(**kw):
-        c = xyz.Crop(name="k", parent_dir=d)
+        c = crop if case.get("live") else xyz.Crop(name="k", parent_dir=d)
         if form == "raw":
             return c.reap(**kw)
         if form == "ds":
